@@ -17,6 +17,7 @@ import Cosi.Driver.Alias
 import Cosi.Driver.Access
 import Cosi.Driver.Persist
 import Cosi.Driver.Cache
+import Cosi.Driver.Restart
 
 open Cosi
 
@@ -41,7 +42,8 @@ def engines : List (String × Engine) := [
   ("access", ⟨Driver.Access.St, Driver.Access.init, Driver.Access.stepLine⟩),
   ("persist", ⟨Driver.Persist.St, Driver.Persist.init, Driver.Persist.stepLine⟩),
   ("cache", ⟨Driver.Cache.St, Driver.Cache.init, Driver.Cache.stepCache⟩),
-  ("cacherun", ⟨Driver.Cache.RSt, Driver.Cache.rinit, Driver.Cache.stepRun⟩)
+  ("cacherun", ⟨Driver.Cache.RSt, Driver.Cache.rinit, Driver.Cache.stepRun⟩),
+  ("faults", ⟨Driver.Restart.St, Driver.Restart.init, Driver.Restart.stepLine⟩)
 ]
 
 partial def loop (e : Engine) (spec : Bool) (inp : IO.FS.Stream) (out : IO.FS.Stream) (st : e.σ) : IO Unit := do
